@@ -379,3 +379,32 @@ Qed.
 
 Theorem pingresp_clears_await s : exists s', step s (Inc PPingResp) = Ok (s', Wrote None) /\ await_pingresp s' = false.
 Proof. eexists. split; reflexivity. Qed.
+
+(** the keep-alive arm does not wait for flow control.  The model has no inflight field at all: the
+    guard of the timer arm in select() is `keepalive_timeout.is_some() && !keep_alive.is_zero()` and
+    [outgoing_ping] reads neither `inflight` nor `max_inflight`, so what a Tick does is a function of
+    (deadline, await, coll, cpc) only — the full window is tied to the real loop by the scenarios
+    "full1" / "full2" (tools/comp_client.py).  For the parked collision, which the model has: at an
+    expired deadline the arm ALWAYS produces something at that instant — a PINGREQ or an error,
+    never silence — and a collision changes the outcome only as CollisionTimeout, only from the
+    second firing on; the first firing with a collision parked behaves exactly as without one *)
+Theorem ka_independent_of_window ka s t d : deadline s = Some d -> d <= t ->
+  (exists s' o, kstep ka s (Tick t) = (s', [o]) /\ ping_time o = t /\
+     (o = ErrCollision t <-> coll s = true /\ 1 <= cpc s)) /\
+  (forall c n, c = false \/ n = 0 ->
+     snd (kstep ka (mkK (deadline s) (await s) c n) (Tick t)) = [if await s then ErrAwait t else PingReqAt t]).
+Proof.
+  intros Hd Hle. split.
+  - unfold kstep. cbn [kstep_gen]. rewrite Hd. destruct (N.leb_spec d t) as [_|]; [|lia].
+    unfold kping. cbn [coll await cpc deadline].
+    destruct (coll s) eqn:Ec; cbn [andb].
+    + destruct (N.leb_spec 2 (cpc s + 1)) as [H2 | H2].
+      * eexists _, _. split; [reflexivity|]. split; [reflexivity|]. split; [intros _; split; [reflexivity|lia]|reflexivity].
+      * destruct (await s); eexists _, _; (split; [reflexivity|]); (split; [reflexivity|]); (split; [discriminate|intros [_ H]; lia]).
+    + destruct (await s); eexists _, _; (split; [reflexivity|]); (split; [reflexivity|]); (split; [discriminate|intros [H _]; discriminate]).
+  - intros c n Hcn. unfold kstep. cbn [kstep_gen deadline]. rewrite Hd. destruct (N.leb_spec d t) as [_|]; [|lia].
+    unfold kping. cbn [coll await cpc deadline].
+    destruct Hcn as [-> | ->].
+    + cbn [andb]. destruct (await s); reflexivity.
+    + destruct c; cbn [andb]; [change (2 <=? 0 + 1) with false; cbn iota|]; destruct (await s); reflexivity.
+Qed.
